@@ -155,7 +155,7 @@ def _interp_clamp(aps, fl, r):
 def judge(case, im, mo):
     if case.get('kind') == 'radius':
         return _judge_radius(case, im, mo)
-    tol8 = 1e-4 if case.get('ap_dtype') == 'float32' else 1e-8      # a single-precision aperture table is interpolated with single-precision abscissae (1e-7 in the log fluxes, amplified in A_V by the conditioning of the one-parameter regression); these cases are there for the refusal on the table edge
+    tol8 = 1e-8      # (single-precision aperture tables were compared at 1e-6, then 1e-4, until the repair F57: the interpolation is done in double precision now)
     import numpy as np
     tags = ['nb=%d' % len(case['wav']), 'nm=%d' % len(case['names']), 'kind=' + case.get('kind', 'ok'),
             'drange=%s' % ('equal' if case['drange'][0] == case['drange'][1] else 'range')]
